@@ -13,6 +13,26 @@ CLAIMED = {
    design_ref="§4 C13"),
 }
 
+_E1 = "bounded symbolic execution of the real Python source (AST interpreter over a symbolic heap) + z3: one inductive step per public mutator from an arbitrary invariant-satisfying state"
+CLAIMED.update({
+ "C01": dict(engine="E1", technique=_E1,
+   text="Inductive, bounded: for every public IR mutator, executed symbolically from ANY pre-state satisfying the representation invariant (ownership lists<->back pointers, pin<->wire links, instance mirror) with ANY arguments (foreign elements, None, proxy outer pins, arbitrary positions, bulk lists/sets with duplicates), z3 shows ownership and pin-wire consistency hold again whether the call returned or raised, and that reorder setters permute. By induction this covers every edit history that fits the universe. Counterexamples are rebuilt through the public API and replayed on the real classes before being reported.",
+   note="Trusted: z3, the AST interpreter (differentially validated against the real classes on random concrete steps in every run), the replay oracle. Bounds (slots per class, list capacity, bulk length) per obligation in evidence; set/dict iteration order modelled as slot order; no listeners registered.",
+   design_ref="§4 C01, §2"),
+ "C02": dict(engine="E1", technique=_E1,
+   text="Same inductive step as C01, asserting the instance mirror: reference sets agree with Instance.reference and every instance holds exactly one outer pin per inner pin of its definition, each naming that instance and inner pin, after every mutator from any invariant state.",
+   note="As C01. The functional clauses (disconnect-first, re-point keeps connections) are covered through I2/I3 preservation plus the C19 mirror; stated in DESIGN.",
+   design_ref="§4 C02"),
+ "C14": dict(engine="E1", technique=_E1,
+   text="For every public mutator from any invariant state and any arguments: on every path on which the call raises, all fields of all pre-existing objects (ordered lists, reference sets, pin maps, data, flags) equal their pre-call values and mention no object allocated during the call.",
+   note="As C01. Refusals by the naming plugin are covered by the C10 obligations, not here.",
+   design_ref="§4 C14"),
+ "C19": dict(engine="E1", technique=_E1 + "; event list folded by an independent reference mirror",
+   text="For every public mutator from any invariant state with a recording listener on all events: the mirror obtained by replaying the announcements on the pre-state equals the real post-state (containment, connections, references, top instance, data); announcements precede the change; a call that raises announced nothing structural.",
+   note="As C01. Outer-pin re-keying on Instance.reference re-pointing is not announced and is excluded; disconnect announcements may repeat.",
+   design_ref="§4 C19"),
+})
+
 NA_REASON = "check not built yet in this round (see DESIGN.md §7 build order); no claim is made"
 
 def main():
